@@ -268,10 +268,14 @@ def run(ctx, replay=None):
         log("MACHINERY-ERROR compile-time leg does not compile against %s:\n  %s" % (lib.REPO, "\n  ".join(stray[:6])))
         return 2
     ct_failed = {cid: r for cid, r in ct.items() if not r["ok"]}
+    ct_reported = 0
     for cid, r in sorted(ct_failed.items()):
         fid = CT_KNOWN.get(cid)
         if fid and known.get(fid, {}).get("status") == "known":
             ctx.known(fid, known[fid].get("what", ""))
+            continue
+        ct_reported += 1
+        if ct_reported > 3:          # one diagnostic usually repeats over the capacities: three replays are enough
             continue
         ctx.violation({"kind": "compile_time_case", "cases": ["ct id=%s" % cid], "expression": r["expr"],
                        "impl": "rejected by the constant evaluator: " + r["diagnostic"], "model": "constant expression, true",
@@ -281,6 +285,8 @@ def run(ctx, replay=None):
                        "explanation": "static_assert(%s) in harness/c02_constexpr.cpp: g++ -std=c++20 -fsyntax-only says: %s"
                                       % (r["expr"], r["diagnostic"])}, found=True)
 
+    if ct_reported > 3:
+        log("  (%d further compile-time cases rejected, not listed: %s)" % (ct_reported - 3, sorted(c for c in ct_failed if c not in CT_KNOWN)[3:]))
     rc = _standard(mod, ctx, None)
 
     # observed-only clauses: counts measured on this run go into the evidence
